@@ -252,3 +252,84 @@ def reply_obligation(prog, enums, structs, shape):
                 failed.append(dict(check="", description=name, location="dns/mod.rs create_in_reply (lifted)", kind="violation",
                                    counterexample=dict(shape=list(shape), note="see claim; the upstream reply has distinct symbolic records per section")))
     return failed, ex, len(paths), {}
+
+
+# ---------------------------------------------------------------------------------------------------------------- cache handle_query wrapper (C06)
+def cache_wrapper_obligation(prog, enums, structs):
+    """key construction, class-IN gate and insert-only-if-cacheable of the async CacheHandler::handle_query (lifted)"""
+    fn = find(prog, "lifted_cache_handle_query", 3)
+    summ = dict(S)
+
+    def get_entry(ex, c):
+        ex.env["lookup_key"] = ex.load(c.args[1]) if isinstance(c.args[1], Ref) else c.args[1]
+        if ex.choose([None, None]) == 0:
+            ex.env["hit"] = True
+            return some(err(Adt("dns::Error", "NotAuthoritative", [])))
+        return Adt("Option", "None", [])
+
+    def next_handle(ex, c):
+        ex.env["upstream_calls"] = ex.env.get("upstream_calls", 0) + 1
+        return err(Adt("dns::Error", "Blocked", []))
+
+    def calc(ex, c):
+        secs = z3.BitVec("lifetime_s", 64)
+        ex.env["lifetime"] = secs
+        return Adt("Duration", None, [BV(secs), BV(z3.BitVecVal(0, 32))])
+
+    def insert(ex, c):
+        ex.env["inserted_key"] = c.args[2]
+        ex.env["inserted_expiry"] = c.args[4]
+        return Adt("()", None, [])
+    summ.update({"CacheShim::get_entry": get_entry, "NextShim::handle_query": next_handle, "CacheShim::calculate_expiry": calc,
+                 "CacheShim::insert_cache_entry": insert, "LockShim::read": lambda ex, c: Opaque("Cache"), "LockShim::write": lambda ex, c: Opaque("Cache"),
+                 "harness_now": lambda ex, c: Opaque("Instant"), "lifted::harness_now": lambda ex, c: Opaque("Instant")})
+    ex = Exec(prog, summ, enums, max_unroll=4)
+
+    def run(e):
+        qn, qt, qc = z3.BitVec("qname", 32), z3.BitVec("qtype", 16), z3.BitVec("qclass", 16)
+        do, cd = z3.Bool("do"), z3.Bool("cd")
+        e.env["q"] = (qn, qt, qc, do, cd)
+        question = build(structs, "Question", qdomain=Adt("Domain", None, [BV(qn)]), qclass=Adt("Class", None, [BV(qc)]), qtype=Adt("Type", None, [BV(qt)]))
+        names = structs["DNSPkt"][0]
+        vals = {n: Opaque("unused") for n in names}
+        vals.update(question=question, edns_do=Bool(do), cd=Bool(cd), rd=Bool(z3.Bool("rd")), qid=BV(z3.BitVec("qid", 16)))
+        pkt = Adt("DNSPkt", None, [vals[n] for n in names], list(names))
+        mnames = [f for f in structs["DnsMessage"] if "in_query" in f][0]
+        mvals = {n: Opaque("unused") for n in mnames}
+        mvals["in_query"] = pkt
+        msg = Adt("DnsMessage", None, [mvals[n] for n in mnames], list(mnames))
+        shim = Adt("CacheShim", None, [Adt("NextShim", None, []), Adt("LockShim", None, [])], ["next", "cache"])
+        return e.call_fn(fn, [Ref(Cell(shim)), Ref(Cell(msg)), Opaque("SocketAddr")])
+    paths = ex.explore(run)
+    failed, kinds = [], {}
+    for outcome, val, pc, env in paths:
+        qn, qt, qc, do, cd = env["q"]
+        claims = []
+        if outcome == "panic":
+            claims.append(("the cache wrapper never panics: " + str(val), z3.BoolVal(False)))
+        else:
+            def key_is_query(k):
+                return z3.And(field(structs, k, "qname").fields[0].t == qn, field(structs, k, "qtype").fields[0].t == qt,
+                              field(structs, k, "edns_do").t == do, field(structs, k, "cd").t == cd)
+            lk = env.get("lookup_key")
+            kinds["looked-up" if lk is not None else "bypass"] = kinds.get("looked-up" if lk is not None else "bypass", 0) + 1
+            claims.append(("only class IN queries consult the cache; other classes go upstream", (qc == 1) == z3.BoolVal(lk is not None)))
+            if lk is not None:
+                claims.append(("the cache is consulted with exactly the query's name, type, DNSSEC-OK and checking-disabled bits", key_is_query(lk)))
+            if env.get("hit"):
+                claims.append(("a cache hit is answered without asking upstream", z3.BoolVal(env.get("upstream_calls", 0) == 0)))
+            else:
+                claims.append(("a miss is resolved upstream exactly once", z3.BoolVal(env.get("upstream_calls", 0) == 1)))
+            ik = env.get("inserted_key")
+            if ik is not None:
+                claims.append(("an entry is stored under exactly the query's key and only with a positive lifetime",
+                               z3.And(key_is_query(ik), z3.UGT(env["lifetime"], 0))))
+            elif lk is not None and not env.get("hit"):
+                claims.append(("a reply with a positive lifetime is stored", z3.Not(z3.UGT(env["lifetime"], 0))))
+        for name, f in claims:
+            m = check(ex, pc, f, name)
+            if m is not None:
+                failed.append(dict(check="", description=name, location="dns/cache/mod.rs handle_query (lifted)", kind="violation",
+                                   counterexample=dict(acl_verdict=None, qclass=m.eval(qc, model_completion=True).as_long(), do=str(m.eval(do, model_completion=True)),
+                                                       cd=str(m.eval(cd, model_completion=True)), hit=bool(env.get("hit")))))
+    return failed, ex, len(paths), kinds
